@@ -18,6 +18,29 @@ import argparse, glob, hashlib, json, os, re, shutil, subprocess, sys, time
 
 VERIF = "/verif"
 COQ = os.path.join(VERIF, "coq")
+# Alternative-root mode (used to evaluate seeded changes without touching /repo, several at a
+# time): VERIF_ALT=<dir> where <dir>/repo is a worktree of the library. The harness is copied to
+# <dir>/harness with its go.mod pointing at <dir>/repo, generated tables are compiled in a symlink
+# farm <dir>/coq, binaries, work files, evidence and replays go under <dir>. The Coq development and
+# the extracted model (which do not depend on the library's source) are used from /verif as built.
+ALT = os.environ.get("VERIF_ALT")
+OUT = ALT or VERIF
+HARNESS = os.path.join(OUT, "harness")
+COQGEN = os.path.join(OUT, "coq")       # root used to compile Gen/ (== COQ unless ALT)
+BIN = os.path.join(OUT, "bin")
+
+
+def prepare_alt():
+    os.makedirs(BIN, exist_ok=True)
+    subprocess.run("rm -rf %s && cp -r %s %s" % (HARNESS, os.path.join(VERIF, "harness"), HARNESS), shell=True, check=True)
+    gm = os.path.join(HARNESS, "go.mod")
+    txt = open(gm).read().replace("=> /repo", "=> " + os.path.join(ALT, "repo"))
+    open(gm, "w").write(txt)
+    subprocess.run("rm -rf %s && mkdir -p %s/Gen" % (COQGEN, COQGEN), shell=True, check=True)
+    for e in os.listdir(COQ):
+        if e != "Gen" and not e.startswith("."):
+            os.symlink(os.path.join(COQ, e), os.path.join(COQGEN, e))
+    shutil.copy(os.path.join(COQ, "Gen", "TablesOK.v"), os.path.join(COQGEN, "Gen", "TablesOK.v"))
 sys.path.insert(0, os.path.join(VERIF, "tools"))
 from propcfg import PROPS  # per-property texts
 
@@ -175,22 +198,22 @@ def compile_props(prop):
 
 def gen_tables():
     """tie (i): regenerate implementation tables from /repo and re-prove equality"""
-    gen = os.path.join(VERIF, "bin", "gentables")
-    tv = os.path.join(COQ, "Gen", "TablesOK.v")
+    gen = os.path.join(BIN, "gentables")
+    tv = os.path.join(COQGEN, "Gen", "TablesOK.v")
     if not os.path.exists(tv):
         return True, "no TablesOK.v", 0
     rc, out = sh("go build -tags verif -o %s ./cmd/gentables" % gen, 600,
-                 cwd=os.path.join(VERIF, "harness"))
+                 cwd=HARNESS)
     if rc != 0:
         return False, "gentables build failed:\n" + out, 0
-    with open(os.path.join(COQ, "Gen", "ImplTables.v"), "wb") as f:
+    with open(os.path.join(COQGEN, "Gen", "ImplTables.v"), "wb") as f:
         rc, out = sh([gen], 120, stdout=f)
     if rc != 0:
         return False, "gentables run failed", 0
-    rc, out = sh(["coqc", "-Q", ".", "V", "Gen/ImplTables.v"], 600, cwd=COQ)
+    rc, out = sh(["coqc", "-Q", ".", "V", "Gen/ImplTables.v"], 600, cwd=COQGEN)
     if rc != 0:
         return False, "ImplTables.v does not compile:\n" + out[-2000:], 0
-    rc, out = sh(["coqc", "-Q", ".", "V", "Gen/TablesOK.v"], 900, cwd=COQ)
+    rc, out = sh(["coqc", "-Q", ".", "V", "Gen/TablesOK.v"], 900, cwd=COQGEN)
     n = len(re.findall(r"\b(?:Lemma|Theorem)\b", strip_comments(open(tv).read())))
     if rc != 0:
         return False, "TablesOK.v: a generated table differs from the model's:\n" + out[-3000:], n
@@ -198,8 +221,7 @@ def gen_tables():
 
 
 def build_harness():
-    return sh("go build -tags verif -o %s ./cmd/vh" % os.path.join(VERIF, "bin", "vh"), 900,
-              cwd=os.path.join(VERIF, "harness"))
+    return sh("go build -tags verif -o %s ./cmd/vh" % os.path.join(BIN, "vh"), 900, cwd=HARNESS)
 
 
 def load_known():
@@ -227,11 +249,14 @@ def main():
         tier = "quick"
     cfg = PROPS[prop]
     t0 = time.time()
-    work = os.path.join(VERIF, "work", prop)
+    if ALT:
+        prepare_alt()
+        a.skip_coq_build = True
+    work = os.path.join(OUT, "work", prop)
     shutil.rmtree(work, ignore_errors=True)
     os.makedirs(work, exist_ok=True)
-    os.makedirs(os.path.join(VERIF, "replays"), exist_ok=True)
-    os.makedirs(os.path.join(VERIF, "evidence"), exist_ok=True)
+    os.makedirs(os.path.join(OUT, "replays"), exist_ok=True)
+    os.makedirs(os.path.join(OUT, "evidence"), exist_ok=True)
     os.makedirs(ENV["GOCACHE"], exist_ok=True)
 
     broken = []        # (what, detail): proof / tie obligations that no longer check
@@ -239,7 +264,7 @@ def main():
     # shared build products (coq .vo, Gen/, bin/) are guarded by a lock so that
     # checks may run concurrently
     import fcntl
-    lockf = open(os.path.join(VERIF, ".cache", "build.lock"), "w")
+    lockf = open(os.path.join(OUT if ALT else os.path.join(VERIF, ".cache"), "build.lock"), "w")
     fcntl.flock(lockf, fcntl.LOCK_EX)
 
     # 1. gate
@@ -257,7 +282,13 @@ def main():
             rc, out = build_model_if_stale()
             if rc != 0 or "Error" in out:
                 broken.append(("model-extraction", out[-3000:]))
-    ok, theorems, assumptions, plog = compile_props(prop)
+    if ALT:
+        # the theorems do not depend on the library's source: they were compiled by the build in /verif
+        txt = strip_comments(open(os.path.join(COQ, "Props", prop + ".v")).read())
+        theorems = re.findall(r"\bTheorem\s+([A-Za-z0-9_']+)", txt)
+        ok, assumptions, plog = os.path.exists(os.path.join(COQ, "Props", prop + ".vo")), ["(see /verif run)"] * len(theorems), ""
+    else:
+        ok, theorems, assumptions, plog = compile_props(prop)
     if not ok:
         broken.append(("Props/%s.v" % prop, plog[-3000:]))
     if ok and len(assumptions) != len(theorems):
@@ -285,17 +316,16 @@ def main():
         fcntl.flock(lockf, fcntl.LOCK_UN)
     else:
         vhbin = os.path.join(work, "vh")
-        shutil.copy(os.path.join(VERIF, "bin", "vh"), vhbin)
+        shutil.copy(os.path.join(BIN, "vh"), vhbin)
         fcntl.flock(lockf, fcntl.LOCK_UN)
         tmo = 900 if tier == "quick" else 7200
         env2 = dict(ENV)
         if prop == "C19":
             # race-detector build of the same harness
             fcntl.flock(lockf, fcntl.LOCK_EX)
-            rc, out = sh("go build -race -tags verif -o %s ./cmd/vh" % os.path.join(VERIF, "bin", "vhrace"), 1800,
-                         cwd=os.path.join(VERIF, "harness"))
+            rc, out = sh("go build -race -tags verif -o %s ./cmd/vh" % os.path.join(BIN, "vhrace"), 1800, cwd=HARNESS)
             if rc == 0:
-                shutil.copy(os.path.join(VERIF, "bin", "vhrace"), vhbin)
+                shutil.copy(os.path.join(BIN, "vhrace"), vhbin)
             else:
                 broken.append(("harness-build(race)", out[-2000:]))
             fcntl.flock(lockf, fcntl.LOCK_UN)
@@ -372,7 +402,7 @@ def main():
     if violations:
         v = violations[0]
         h = hashlib.sha256(json.dumps(v, sort_keys=True).encode()).hexdigest()[:12]
-        rp = os.path.join(VERIF, "replays", "%s-%s.json" % (prop, h))
+        rp = os.path.join(OUT, "replays", "%s-%s.json" % (prop, h))
         json.dump({"property": prop, "violation": v, "all": violations[:20],
                    "how": "vh replay: the 'replay' field holds the input/history; see tools/check.py"},
                   open(rp, "w"), indent=1)
@@ -387,7 +417,7 @@ def main():
                    "note": "no input was found on which the property itself fails; the named theorem / "
                            "table lemma / correspondence no longer checks, so the property is no longer shown to hold"}
         h = hashlib.sha256(json.dumps(payload, sort_keys=True).encode()).hexdigest()[:12]
-        rp = os.path.join(VERIF, "replays", "%s-%s.json" % (prop, h))
+        rp = os.path.join(OUT, "replays", "%s-%s.json" % (prop, h))
         json.dump(payload, open(rp, "w"), indent=1)
         lines.append("VIOLATION property=%s replay=%s no-failing-input-found" % (prop, rp))
         exit_code = 1
@@ -432,7 +462,7 @@ def main():
         "wall_s": round(time.time() - t0, 1),
         "violations": len(violations) + (1 if (not violations and (broken or disagreements)) else 0),
     }
-    json.dump(ev, open(os.path.join(VERIF, "evidence", prop + ".json"), "w"), indent=1)
+    json.dump(ev, open(os.path.join(OUT, "evidence", prop + ".json"), "w"), indent=1)
     for l in lines:
         print(l)
     print("%s tier=%s theorems=%d/%d tables=%d cases=%d disagreements=%d oracle_evals=%d oracle_violations=%d known=%d wall=%.0fs" % (
